@@ -1,9 +1,47 @@
 import CoxeterVerif.Driver.Proto
 import CoxeterVerif.Driver.OpsC01
+import CoxeterVerif.Driver.OpsC02
+import CoxeterVerif.Driver.OpsC03
+import CoxeterVerif.Driver.OpsC04
+import CoxeterVerif.Driver.OpsC05
+import CoxeterVerif.Driver.OpsC06
+import CoxeterVerif.Driver.OpsC07
+import CoxeterVerif.Driver.OpsC08
+import CoxeterVerif.Driver.OpsC09
+import CoxeterVerif.Driver.OpsC10
+import CoxeterVerif.Driver.OpsC11
+import CoxeterVerif.Driver.OpsC12
+import CoxeterVerif.Driver.OpsC13
+import CoxeterVerif.Driver.OpsC14
+import CoxeterVerif.Driver.OpsC15
+import CoxeterVerif.Driver.OpsC16
+import CoxeterVerif.Driver.OpsC17
+import CoxeterVerif.Driver.OpsC18
+import CoxeterVerif.Driver.OpsC19
+import CoxeterVerif.Driver.OpsC20
 /-! Model driver: reads requests on stdin, answers on stdout (see Driver/Proto.lean). -/
 
 def dispatch (α : Type) [Scalar α] [Codec α] (op : String) (c : Ctx) : Option (Rd String) :=
-  (OpsC01.run (α := α) op c)
+  (OpsC01.run α op c) <|>
+  (OpsC02.run α op c) <|>
+  (OpsC03.run α op c) <|>
+  (OpsC04.run α op c) <|>
+  (OpsC05.run α op c) <|>
+  (OpsC06.run α op c) <|>
+  (OpsC07.run α op c) <|>
+  (OpsC08.run α op c) <|>
+  (OpsC09.run α op c) <|>
+  (OpsC10.run α op c) <|>
+  (OpsC11.run α op c) <|>
+  (OpsC12.run α op c) <|>
+  (OpsC13.run α op c) <|>
+  (OpsC14.run α op c) <|>
+  (OpsC15.run α op c) <|>
+  (OpsC16.run α op c) <|>
+  (OpsC17.run α op c) <|>
+  (OpsC18.run α op c) <|>
+  (OpsC19.run α op c) <|>
+  (OpsC20.run α op c)
 
 def handle (line : String) : String :=
   match (line.trimAscii.toString.splitOn " ").filter (· ≠ "") with
